@@ -49,3 +49,60 @@ PROPS["C16"] = {
     ],
     "min_nontrivial": {"quick": 1000, "thorough": 10000},
 }
+
+PROPS["C01"] = {
+    "level": "exploration",
+    "design_ref": "DESIGN.md §4.1",
+    "technique": "rapid-generated stores x typed predicates; exact ordered row list from an independent reference evaluator; row/batch/repetition",
+    "level_text": "Randomised exploration with an exact oracle: stores (5 value kinds, 0..70 pairs, keys dense in prefixes/ties) and "
+                  "well-typed predicates of the documented core language are generated from a typed grammar over the harness' own AST; "
+                  "an independent reference evaluator written from the README computes the expected ordered row list, and the engine's "
+                  "rows must equal it exactly in row mode, batch mode and on a second execution. Sampling, not proof; literals are drawn "
+                  "from stored keys/values and their neighbours so boundaries are dense.",
+    "level_note": "Trusted: reference evaluator lib/refeval.go (README semantics; assumption A-div: int/int division truncates), "
+                  "reference store. Corners the README leaves open (int() of non-numeric text, float rendering, overflow, "
+                  "non-ASCII case mapping, BETWEEN with lower>=upper) are never generated.",
+    "rule": "rapid: store kind x size {0..70} x batch size {1,2,3,5,32} x predicate depth 0..4 (comparisons, ^=, ~=, IN, BETWEEN, "
+            "& | and or !, arithmetic, int/float/str/upper/lower/strlen/is_int/is_float/join/len(split)), literal on either side, "
+            "`select * where P` and bare `where P`. Non-trivial = at least one stored pair satisfies P and at least one does not; "
+            "distinct = distinct (query text, store) pairs (hash set).",
+    "assumptions": COMMON_ASSUMPTIONS + [
+        "a statement the engine rejects at plan time is outside C01 (accepted queries only); such cases are counted under label rejected-by-engine and must stay rare",
+    ],
+    "legs": [
+        {"test": "TestC01", "kind": "rapid",
+         "quick": {"checks": 6000, "shards": 4}, "thorough": {"checks": 150000, "shards": 16}},
+    ],
+    "min_nontrivial": {"quick": 2000, "thorough": 50000},
+}
+
+PROPS["C02"] = {
+    "level": "exploration",
+    "design_ref": "DESIGN.md §4.2",
+    "technique": "exhaustive enumeration of predicate trees over key atoms (depth<=1 full pool, depth 2 reduced pool) + rapid deep trees; "
+                 "planned region read from the plan's scan node must contain every reference-satisfying key of a verified key universe; rows = full-scan filter",
+    "level_text": "Bounded-exhaustive exploration of the scan-range inference: every atom and every `atom op atom` over a 6-literal pool "
+                  "(about 130 atoms: key =,!=,<,<=,>,>=,^= literal with the literal on either side, IN lists, BETWEEN, opaque atoms), every "
+                  "depth-2 tree over a reduced pool (thorough; every 7th in quick), and sampled trees of depth 3-5. For each statement the "
+                  "region (EMPTY/MGET/PREFIX/RANGE/FULL or the DELETE->REMOVE key list) is extracted from exported plan fields and must "
+                  "contain every key of the universe that the reference evaluator says can satisfy the filter; the REMOVE shortcut must be "
+                  "exact; and the executed rows (or the store after DELETE) must equal the reference-filtered full scan.",
+    "level_note": "Trusted: reference evaluator, region extraction from exported fields (MultiGetPlan.Keys, PrefixScanPlan.Prefix, "
+                  "RangeScanPlan.Start/End, RemovePlan.Keys). The key universe (all keys of length <= maxLiteral+1 over {` a b c}) is checked by "
+                  "TestC02Universe to realise every order/prefix relationship a random byte-string key can have to the literals.",
+    "rule": "enumerated predicate trees (each emitted once) + rapid-sampled deep trees; both SELECT and DELETE forms. "
+            "Non-trivial = the planner chose a region narrower than FULL and at least one key of the universe satisfies the predicate; "
+            "distinct = distinct statements.",
+    "assumptions": COMMON_ASSUMPTIONS + [
+        "keys are non-empty byte strings",
+        "opaque atoms that mention the key (upper(key)='A', key ~= 'a.') are not used by the planner to derive regions, so agreement on the universe is agreement on all keys",
+    ],
+    "legs": [
+        {"test": "TestC02Depth1", "kind": "enum", "quick": {"shards": 6}, "thorough": {"shards": 16}},
+        {"test": "TestC02Depth2", "kind": "enum", "quick": {"shards": 6}, "thorough": {"shards": 16}},
+        {"test": "TestC02Sampled", "kind": "rapid", "quick": {"checks": 1500, "shards": 3}, "thorough": {"checks": 60000, "shards": 16}},
+        {"test": "TestC02Universe", "kind": "rapid", "quick": {"checks": 5000, "shards": 1}, "thorough": {"checks": 200000, "shards": 1}},
+    ],
+    "min_nontrivial": {"quick": 5000, "thorough": 50000},
+    "timeout": {"quick": 900, "thorough": 7200},
+}
